@@ -32,6 +32,7 @@ type c01Args struct {
 	Req      core.LoadReq `json:"req"`
 	Mode     string       `json:"mode,omitempty"`      // "" = loader.LoadWithContext | "model" = LoadModelWithContext | "cli" = cli.ProjectOptions.LoadProject
 	EnvFiles []string     `json:"env_files,omitempty"` // cli mode: explicit --env-file list (relative)
+	Delivery string       `json:"delivery,omitempty"`  // how the files reach the loader: "" = by name (read from disk) | "content" = bytes in memory | "config" = pre-parsed (loader.ParseYAML) | "config-shared" = pre-parsed, ONE map object handed in for every config file (aliasing on the heap; the loader merges in place)
 	Shape    string       `json:"shape"`               // input class (distribution, hang keys)
 	Expect   string       `json:"expect,omitempty"`    // "" | "ok" | "cycle:<kind>" | "missing:<kind>:<basename>[,<basename>…]"
 }
@@ -47,6 +48,37 @@ func realC01Load(raw json.RawMessage) any {
 	defer os.RemoveAll(root)
 	if err != nil {
 		return map[string]any{"bad": "materialize: " + err.Error()}
+	}
+	if a.Delivery != "" && a.Mode != "cli" {
+		details := a.Req.Details(root)
+		var shared map[string]any
+		for i := range details.ConfigFiles {
+			cf := &details.ConfigFiles[i]
+			content, err := os.ReadFile(cf.Filename)
+			if err != nil {
+				continue // a missing file stays a name
+			}
+			cf.Content = content
+			if a.Delivery == "content" {
+				continue
+			}
+			if a.Delivery == "config-shared" && shared != nil {
+				cf.Config, cf.Content = shared, nil
+				continue
+			}
+			if m, err := loader.ParseYAML(content); err == nil && m != nil {
+				cf.Config, cf.Content = m, nil
+				if shared == nil {
+					shared = m
+				}
+			}
+		}
+		if a.Mode == "model" {
+			dict, err := loader.LoadModelWithContext(context.Background(), details, c01Options(a.Req))
+			return c01Outcome(dict != nil, err, root)
+		}
+		p, err := loader.LoadWithContext(context.Background(), details, c01Options(a.Req))
+		return c01Outcome(p != nil, err, root)
 	}
 	switch a.Mode {
 	case "model":
@@ -343,6 +375,18 @@ func c01Rich() M {
 	}
 }
 
+var c01Deliveries = []string{"", "content", "config", "config-shared"}
+
+// c01DrawDelivery: most cases by file name (the historical default), one in five through one of the other doors
+func c01DrawDelivery(ctx *core.Ctx) string {
+	if ctx.Rng.Intn(5) != 0 {
+		return ""
+	}
+	d := c01Deliveries[1+ctx.Rng.Intn(len(c01Deliveries)-1)]
+	ctx.Count("delivery-" + d)
+	return d
+}
+
 var c01OptionNames = []string{"skip_validation", "skip_interpolation", "skip_normalization", "no_resolve_paths", "skip_consistency_check",
 	"skip_extends", "skip_include", "skip_resolve_environment", "skip_default_values", "discard_env_files"}
 
@@ -432,6 +476,22 @@ func runC01(ctx *core.Ctx) {
 		}
 	}
 
+	for _, del := range c01Deliveries[1:] {
+		for _, pos := range []string{"single", "override", "include", "extending"} {
+			for _, bits := range []int{0, 1, 1 | 4 | 16} {
+				if req := c01Positioned(pos, rich, rich); req != nil {
+					applyOptionBits(req, bits)
+					exp := ""
+					if del != "config-shared" && pos != "extending" {
+						exp = "ok" // (the extending position leaves the top-level resources of the rich document behind)
+					}
+					ctx.Count("delivery-" + del)
+					ctx.Add("c01load", c01Args{Req: *req, Delivery: del, Shape: "valid-" + del + "/" + pos, Expect: exp})
+				}
+			}
+		}
+	}
+
 	only := os.Getenv("VERIF_C01_ONLY") // development aid: run one family of streams
 	if only == "" || only == "oracle" {
 		// the named reference-cycle inputs first: if a cycle stops being detected, the replay should be a compose
@@ -452,6 +512,9 @@ func runC01(ctx *core.Ctx) {
 	if only == "repeat" {
 		c01Repeats(ctx)
 	}
+	if only == "names" {
+		c01Names(ctx, rich)
+	}
 	if only == "pipe" {
 		c01Pipe(ctx, sch, rich)
 	}
@@ -462,6 +525,7 @@ func runC01(ctx *core.Ctx) {
 		c01Repeats(ctx) // every list of the valid catalogue with repeated elements in every arrangement (c01_repeat.go)
 		c01Valid(ctx)   // combinations of valid attribute spellings (c01_valid.go)
 		c01Tags(ctx, rich)
+		c01Names(ctx, rich)
 		c01Missing(ctx)
 		c01Kinds(ctx, sch, rich)
 		c01Seqified(ctx, sch, rich) // a mapping on the way replaced by the list of its values (c01_seqified.go)
@@ -515,7 +579,7 @@ func c01Kinds(ctx *core.Ctx, sch *c01Schema, rich M) {
 		ctx.Count("kind-" + kind)
 		ctx.Count("pos-" + pos)
 		ctx.Count(fmt.Sprintf("optset-%d", bits))
-		ctx.Add("c01load", c01Args{Req: *req, Mode: mode, Shape: "kind/" + pos + "/" + p.String() + "/" + kind})
+		ctx.Add("c01load", c01Args{Req: *req, Mode: mode, Delivery: c01DrawDelivery(ctx), Shape: "kind/" + pos + "/" + p.String() + "/" + kind})
 	}
 	for _, p := range paths {
 		for _, kv := range c01KindValues {
@@ -584,6 +648,39 @@ func c01OptionLattice(ctx *core.Ctx, sch *c01Schema, rich M) {
 				exp = "ok"
 			}
 			ctx.Add("c01load", c01Args{Req: r, Shape: "options/" + d.name + "/" + fmt.Sprint(bits), Expect: exp})
+		}
+	}
+}
+
+// project name: unset / taken from the file / from COMPOSE_PROJECT_NAME / from the directory, valid or not — × the entry
+// points × the options that decide where the name is looked at (normalisation and interpolation on or off).  Every other
+// stream sets the name imperatively, so the "empty versus unset" branches of projectName() / load() were never entered.
+func c01Names(ctx *core.Ctx, rich M) {
+	inFile := []any{nil, "", "p", "UPPER", "-x", "a b", "${N}", "${UNSET}", 1, true, L{"p"}, M{"k": "v"}, 1.5}
+	envs := []map[string]string{nil, {"COMPOSE_PROJECT_NAME": "envname"}, {"COMPOSE_PROJECT_NAME": ""}, {"COMPOSE_PROJECT_NAME": "Bad Name"}, {"N": "fromenv"}, {"N": ""}}
+	dirs := []string{"", "proj", "UPPER Dir", "-", "..."}
+	for i, nm := range inFile {
+		for _, env := range envs {
+			for _, dir := range dirs {
+				for _, bits := range []int{0, 1, 2, 4, 1 | 2 | 4} {
+					if !ctx.Thorough() && ctx.Rng.Intn(4) != 0 {
+						continue
+					}
+					doc := M{"services": M{"a": M{"image": "busybox"}}}
+					if i > 0 {
+						doc["name"] = nm
+					}
+					file := "compose.yml"
+					if dir != "" {
+						file = dir + "/compose.yml"
+					}
+					req := core.LoadReq{Files: map[string]string{file: toYAML(doc)}, ConfigFiles: []string{file}, WorkingDir: dir, Env: env}
+					applyOptionBits(&req, bits)
+					mode := []string{"", "model", "cli"}[ctx.Rng.Intn(3)]
+					ctx.Count("name-unset-imperative")
+					ctx.Add("c01load", c01Args{Req: req, Mode: mode, Shape: fmt.Sprintf("name/%d/%s", i, modeName(mode))})
+				}
+			}
 		}
 	}
 }
